@@ -10,17 +10,20 @@ C10's statement as a decidable checker, written from the property text (not from
    * the partner of a child is a direct child of the parent's partner, and partners of successive
      children come in strictly increasing child order — except under `+` / `*`, where the operands may
      swap (partners are then only required to be distinct children);
-   * a `_v_` placeholder's partner carries an identifier, the placeholder key is bound to that identifier
-     in `m`, and ALL bindings of one key in `m` (variable, function and class tables) name one identifier;
-   * an `__e__` placeholder's key is bound in `m.exps` to the path of its partner, i.e. exactly the
-     student subtree standing at its position (when a key is used several times, to the partner of one
-     of its occurrences).
+   * a `_v_` placeholder's partner is a node of the same kind, the placeholder key is bound in `m` to the
+     identifier that partner carries, and ALL bindings of one key in `m` (variable, function and class
+     tables together) name one identifier;
+   * an `__e__` placeholder's key is bound in `m.exps`, and every `m.exps` entry is the path of the partner
+     of an `__e__` placeholder of that name: for a name used once, exactly the student subtree standing
+     at its position (`exp_exact` in PedalProofs).
   It deliberately does not look at AST field names of the partners (see DESIGN §4 C10).
 
-Wildcards of the pattern language: `___`, `__e__` (a Name, or an expression statement consisting of it),
-`pass` (documented: "an empty body matches anything"); `Module` and the expression-statement node `Expr`
-carry no content of their own and may pair with any node.  The `ctx` child of a pattern `Name` is not a
-pattern node of its own (a Name placeholder stands for the identifier wherever it is used).
+Wildcards of the pattern language: `___` (a Name, an argument, or an expression statement consisting of
+it), `__e__` (a Name, or an expression statement consisting of it), `pass` (documented: "an empty body
+matches anything"); `Module` and the expression-statement node `Expr` carry no content of their own and
+may pair with any node.  The `ctx` child of a pattern `Name` is not a pattern node of its own (a Name
+stands for the identifier wherever it is used).  Fields called `ctx` / `args` never hold plain values in
+CPython's grammar and are not content.
 -/
 namespace Pedal.Cait
 
@@ -60,22 +63,20 @@ def role (p : T) : Role :=
     | .wild => .wildcard
     | .exp => .expPh (p.strAttr "id")
     | _ => .concrete
+  else if p.kind = "arg" then
+    if nameClass (p.strAttr "arg") = .wild then .wildcard else .concrete
   else if p.kind = "Expr" then
-    match p.kids with
-    | [v] =>
+    match p.kids.head? with
+    | some v =>
       if v.kind = "Name" then
         match nameClass (v.strAttr "id") with
         | .wild => .wildcard
         | .exp => .expPh (v.strAttr "id")
         | _ => .wrapper
       else .wrapper
-    | _ => .wrapper
+    | none => .wrapper
   else if p.kind = "Module" then .wrapper
   else .concrete
-
-def fldByName (name : String) : List Fld → Option Fld
-  | [] => none
-  | f :: fs => if f.name = name then some f else fldByName name fs
 
 /-- a field holding only plain values (one, or a non-empty list of them) -/
 def plainItems (v : FVal) : Option (List Item) :=
@@ -85,21 +86,24 @@ def plainItems (v : FVal) : Option (List Item) :=
   | .one .node => none
   | .many l => if !l.isEmpty && l.all Item.isPrim then some l else none
 
-/-- equal plain content, field by field, except the field `skip` -/
-def contentEq (skip : Option String) (p s : T) : Bool :=
-  p.flds.all fun fi =>
-    if some fi.name = skip then true
-    else
-      match plainItems fi.val with
-      | none => true
-      | some items =>
-        match fldByName fi.name s.flds with
-        | some fs => fs.val.items = items
-        | none => false
+def structuralField (name : String) : Bool := name = "ctx" || name = "args"
 
-/-- the placeholder key `k` is bound to identifier `x`, and to nothing else, in `m` -/
-def boundTo (m : AstMap) (k x : String) : Bool :=
-  m.binds.any (fun b => b.key = k && b.id = x) && m.binds.all (fun b => b.key ≠ k || b.id = x)
+/-- one pattern field against the student's field at the same position -/
+def fieldContentOk (skip : Option String) (fi fs : Fld) : Bool :=
+  match plainItems fi.val with
+  | none => true
+  | some items =>
+    structuralField fi.name || some fi.name = skip ||
+      (fi.name = fs.name && (!fs.val.items.all Item.isPrim || fs.val.items = items))
+
+/-- equal plain content, field by field (`ast.iter_fields` order is fixed by the kind), except the field
+`skip`; a student field that holds AST nodes (`{**a, 1: 2}` has keys `[None, 1]`) is a list of children,
+not content -/
+def contentEq (skip : Option String) (p s : T) : Bool :=
+  p.flds.length ≤ s.flds.length && zipAll (fieldContentOk skip) p.flds s.flds
+
+def hasBind (m : AstMap) (k x : String) : Bool :=
+  m.binds.any (fun b => b.key = k && b.id = x)
 
 /-- kind and content of a concrete pattern node against its partner -/
 def nodeOk (m : AstMap) (p s : T) : Bool :=
@@ -109,44 +113,29 @@ def nodeOk (m : AstMap) (p s : T) : Bool :=
   | some f =>
     let name := p.strAttr f
     let sname := s.strAttr f
-    contentEq (some f) p s &&
-      (name = sname ||
-       (match nameClass name with
-        | .var => boundTo m name sname
-        | .wild => true
-        | _ => false))
+    (nameClass name = .var && hasBind m name sname) || nameClass name = .wild ||
+      contentEq none p s || (contentEq (some f) p s && name = sname)
 
 def flexOp (p : T) : Bool :=
-  p.kind = "BinOp" && (kidKind p.kids 1 = "Add" || kidKind p.kids 1 = "Mult")
-
-def countExp (k : String) : T → Nat
-  | .mk kind f fl kids =>
-    (if role (.mk kind f fl kids) = .expPh k then 1 else 0) + countExpL k kids
-where countExpL (k : String) : List T → Nat
-  | [] => 0
-  | t :: ts => countExp k t + countExpL k ts
+  p.kind = "BinOp" && (kidKind p.kids 1 = "Mult" || kidKind p.kids 1 = "Add")
 
 mutual
-/-- pattern node `p` (at `pp`) is embedded at student node `s` (at `sp`); `whole` is the stripped pattern -/
-def embAt (m : AstMap) (whole : T) (pp : Path) (p : T) (sp : Path) (s : T) : Bool :=
+/-- pattern node `p` (at `pp`) is embedded at student node `s` (at `sp`) -/
+def embAt (m : AstMap) (pp : Path) (p : T) (sp : Path) (s : T) : Bool :=
   match p with
   | .mk kind field flds kids =>
     dictGet pp m.mappings = some sp &&
     match role (.mk kind field flds kids) with
     | .wildcard => true
-    | .expPh k =>
-      (match dictGet k m.exps with
-       | some v => v = sp || countExp k whole > 1
-       | none => false)
-    | .wrapper => embKids m whole pp 0 kids sp s true 0 []
+    | .expPh k => (dictGet k m.exps).isSome
+    | .wrapper => embKids m pp 0 kids sp s true 0 []
     | .concrete =>
       nodeOk m (.mk kind field flds kids) s &&
-      (if kind = "Name" then true
-       else embKids m whole pp 0 kids sp s (!flexOp (.mk kind field flds kids)) 0 [])
+      (kind = "Name" || embKids m pp 0 kids sp s (!flexOp (.mk kind field flds kids)) 0 [])
 
 /-- children `kids` (from index `i`) have partners among the children of `s`:
 ordered ⇒ indices ≥ `minJ`, increasing; otherwise ⇒ pairwise distinct (`used`). -/
-def embKids (m : AstMap) (whole : T) (pp : Path) (i : Nat) (kids : List T) (sp : Path) (s : T)
+def embKids (m : AstMap) (pp : Path) (i : Nat) (kids : List T) (sp : Path) (s : T)
     (ordered : Bool) (minJ : Nat) (used : List Nat) : Bool :=
   match kids with
   | [] => true
@@ -160,22 +149,27 @@ def embKids (m : AstMap) (whole : T) (pp : Path) (i : Nat) (kids : List T) (sp :
         q = sp ++ [j] &&
         (if ordered then j ≥ minJ else !used.contains j) &&
         (match s.kids[j]? with
-         | some sj => embAt m whole (pp ++ [i]) pc q sj
+         | some sj => embAt m (pp ++ [i]) pc q sj
          | none => false) &&
-        embKids m whole pp (i + 1) rest sp s ordered (j + 1) (j :: used)
+        embKids m pp (i + 1) rest sp s ordered (j + 1) (j :: used)
+end
+
+mutual
+/-- some `__e__` placeholder called `k` in `p` (at `pp`) has partner `v` -/
+def expSomewhere (m : AstMap) (k : String) (v : Path) (pp : Path) (p : T) : Bool :=
+  match p with
+  | .mk kind f fl kids =>
+    (role (.mk kind f fl kids) = .expPh k && dictGet pp m.mappings = some v) ||
+    expSomewhereL m k v pp 0 kids
+def expSomewhereL (m : AstMap) (k : String) (v : Path) (pp : Path) (i : Nat) (kids : List T) : Bool :=
+  match kids with
+  | [] => false
+  | t :: ts => expSomewhere m k v (pp ++ [i]) t || expSomewhereL m k v pp (i + 1) ts
 end
 
 /-- every `exps` entry is the partner of some `__e__` placeholder of that name -/
-def expsOk (m : AstMap) (pp : Path) : T → Bool
-  | p => m.exps.all fun kv => expSomewhere m kv.1 kv.2 pp p
-where
-  expSomewhere (m : AstMap) (k : String) (v : Path) : Path → T → Bool
-    | pp, .mk kind f fl kids =>
-      (role (.mk kind f fl kids) = .expPh k && dictGet pp m.mappings = some v) ||
-      expSomewhereL m k v pp 0 kids
-  expSomewhereL (m : AstMap) (k : String) (v : Path) (pp : Path) : Nat → List T → Bool
-    | _, [] => false
-    | i, t :: ts => expSomewhere m k v (pp ++ [i]) t || expSomewhereL m k v pp (i + 1) ts
+def expsOk (m : AstMap) (pp : Path) (p : T) : Bool :=
+  m.exps.all fun kv => expSomewhere m kv.1 kv.2 pp p
 
 /-- all bindings of one placeholder key name one identifier -/
 def singleIdent (m : AstMap) : Bool :=
@@ -190,6 +184,6 @@ def checkMatch (p s : T) (m : AstMap) (root : Option Path) : Bool :=
     match s.at? r with
     | none => false
     | some sr =>
-      embAt m pr.1 pr.2 pr.1 r sr && expsOk m pr.2 pr.1 && singleIdent m && m.conflicts.isEmpty
+      embAt m pr.2 pr.1 r sr && expsOk m pr.2 pr.1 && singleIdent m && m.conflicts.isEmpty
 
 end Pedal.Cait
